@@ -168,9 +168,14 @@ func mutateChild(e *Env, job []byte, m *emitter) error {
 	n, changed, errs, withPkgs := 0, 0, 0, 0
 	var maxDur time.Duration
 	slow := []int{}
-	for _, pi := range u.Plans {
+	abandoned := 0
+	for k, pi := range u.Plans {
 		if pi < 0 || pi >= len(childPlans) {
 			return fmt.Errorf("plan index %d out of range", pi)
+		}
+		if tooManyHangs(e, u.Ex) {
+			abandoned = len(u.Plans) - k
+			break
 		}
 		mut := applyPlan(data, childPlans[pi])
 		nontrivial := !bytes.Equal(mut, data)
@@ -218,7 +223,7 @@ func mutateChild(e *Env, job []byte, m *emitter) error {
 			os.Exit(3)
 		}
 	}
-	m.result(map[string]any{"u": u.U, "summary": true, "n": n, "changed": changed, "errs": errs, "with_pkgs": withPkgs, "max_ms": maxDur.Milliseconds(), "slow": slow})
+	m.result(map[string]any{"u": u.U, "summary": true, "n": n, "changed": changed, "errs": errs, "with_pkgs": withPkgs, "max_ms": maxDur.Milliseconds(), "slow": slow, "abandoned": abandoned})
 	return nil
 }
 
